@@ -995,7 +995,7 @@ def emit_macro(repo, out, srcfile, name, info):
     out.add(text, {'k': 'src', 'file': srcfile, 'line': lineno(src, item.start)})
 
 
-def build(unit, repo_root, diff=False, canary=False):
+def build(unit, repo_root, diff=False, canary=False, extra_stubs=()):
     upath = os.path.join(VERIF, 'units', unit + '.unit')
     repo = Repo(repo_root)
     out = Out()
@@ -1005,7 +1005,9 @@ def build(unit, repo_root, diff=False, canary=False):
     header_done = False
     directives = [l.strip().split() for l in open(upath).read().split('\n') if l.strip() and not l.strip().startswith('#')]
     proved_here = set((d[1], d[2]) for d in directives if d[0] in ('prove', 'prove?') and len(d) >= 3)
-    for raw in open(upath).read().split('\n'):
+    unit_lines = open(upath).read().split('\n') + ['stub %s %s' % (f, n) for f, n in extra_stubs]
+    info['auto_stubbed'] = ['%s::%s' % (f, n) for f, n in extra_stubs]
+    for raw in unit_lines:
         line = raw.strip()
         if not line or line.startswith('#'):
             continue
